@@ -9,7 +9,8 @@
       extends to all `n : ℤ`);
     * `Controlled(g)` for the one-qubit table gates and for Rx, Ry, Rz at the even phases;
     * the daggers of all of these (flagged `S†`, `T†`, `Y†`, negated phases, rebuilt controlled gates).
-  Kets and bras (≤ 4 bits) and scalars (all normalised values) for the dagger and ZX statements.
+  Kets and bras (≤ 4 bits), scalars (all normalised values) and square-root scalars `sqrt(z)` (all normalised
+  values of the root; `z` non-real or non-negative) for the dagger statement; scalars for the ZX statements.
   The rebuilt-controlled dagger of `Controlled(S)`, `Controlled(T)` is correct only with F2 repaired
   (`f2Fixed`), so `dagOK` for these four gates is stated under that switch.
 -/
@@ -78,6 +79,16 @@ theorem ketBra_ok :
 theorem scalar_dagOK (z : Cyc8) (hz : z.isNormal = true) : (Gate.scalar z).dagOK = true := by
   simp [Gate.dagOK, Gate.shapeOK, isMatB, allNormalB, Gate.eval, Gate.evalW, Gate.isDagger, Gate.arrayW,
     Gate.dagger, Gate.dom, Gate.cod, pow2, hz, dagger, transpose, Conj.conj]
+
+/-- Square-root scalars `sqrt(z)` with value `r`: `⟦s†⟧ = ⟦s⟧†` whenever the box is not taken for self-adjoint
+    (every non-real `z`) or its value is real (`z ≥ 0`) — i.e. everywhere but at negative real `z` (F4k). -/
+theorem sqrt_dagOK (z r : Cyc8) (hr : r.isNormal = true) (h : sqrtSelfAdjoint z r = false ∨ r.conj = r) :
+    (Gate.sqrt z r).dagOK = true := by
+  have hs : (Gate.sqrt z r).shapeOK = true := by
+    simp [Gate.shapeOK, isMatB, allNormalB, Gate.eval, Gate.evalW, Gate.isDagger, Gate.arrayW, Gate.dom, Gate.cod,
+      pow2, hr]
+  have he : (Gate.sqrt z r).dagger.eval = dagger (Gate.sqrt z r).eval := (sqrt_dagger_iff z r f2Fixed).2 h
+  simp [Gate.dagOK, hs, he]
 
 /-! ### rotations at every integer phase index -/
 
